@@ -105,6 +105,7 @@ func HarnessC19Close() {
 	}
 	s := hxNewSrv(caps)
 	s.maxDev = svParam("maxdev", 1)
+	s.symDigits = true // any 4yz / 5yz code: clients special-case codes such as 421
 	s.authFn = hxAuthSimple
 	// the greeting is a reply like any other
 	g := svPick("greeting", 4)
